@@ -329,8 +329,9 @@ def _member(impl, model):
 
 
 def _fd_ok(impl, model):
-    # the fence driver path: answer and record of every delivery (the effect counters are the caller's business there)
-    return impl.split() == [":".join(x.split(":")[:2]) for x in model.split()]
+    # the fence driver path: answer, record and business effect of every delivery (the harness plays an application
+    # that runs its business on every transaction the driver hands out)
+    return impl.split() == model.split()
 
 
 def _race_ok(impl, model):
